@@ -774,14 +774,35 @@ fn main() {
                 &["new", "zipper_merge_and_add", "update", "permute", "permute_and_update", "module_reduction", "rotate_32_by",
                   "update_lanes", "data_to_lanes", "remainder", "update_remainder", "finalize64", "finalize128", "finalize256", "append", "checkpoint", "from_checkpoint"],
                 &[],
+                &[],
                 &[("PACKET_SIZE", 32)],
                 "src",
                 sub,
             );
             write_if_changed(&format!("{}/SrcPortable.v", out_dir), &v);
         }
+        if rel == "src/wasm.rs" {
+            let packet_file = std::fs::read_to_string(format!("{}/src/internal.rs", repo)).ok().and_then(|t| syn::parse_file(&t).ok());
+            let sub = packet_file.as_ref().map(|pf| rustlite::SubObj::new("buffer", pf, "HashPacket"));
+            let v = rustlite::translate_multi(
+                &file,
+                &rel,
+                "WasmHash",
+                "V2x64U",
+                &["v128"],
+                &["new", "zipper_merge", "update", "permute_and_update", "finalize64", "finalize128", "finalize256", "modular_reduction",
+                  "load_multiple_of_four", "remainder", "update_remainder", "rotate_32_by", "data_to_lanes", "append"],
+                &["Debug", "fmt"],
+                &["unordered_load3"],
+                packet_file.as_ref(),
+                &[("PACKET_SIZE", 32)],
+                "wsrc",
+                sub,
+            );
+            write_if_changed(&format!("{}/SrcWasmFull.v", out_dir), &v);
+        }
         if rel == "src/internal.rs" {
-            let v = rustlite::translate(&file, &rel, "HashPacket", &["len", "is_empty", "as_slice", "inner", "fill", "set_to"], &[], &[], "pkt", None);
+            let v = rustlite::translate(&file, &rel, "HashPacket", &["len", "is_empty", "as_slice", "inner", "fill", "set_to"], &["unordered_load3"], &[], &[], "pkt", None);
             write_if_changed(&format!("{}/SrcPacket.v", out_dir), &v);
         }
         let mut ff = FileFacts::default();
@@ -840,7 +861,7 @@ fn main() {
                             let items: Vec<String> = ms.out.iter().map(|s| coq_str(s)).collect();
                             mem_entries.push(format!("({}, {})", coq_str(&format!("{}::{}::{}", rel, if tr.is_empty() { ty.clone() } else { format!("<{} as {}>", ty, tr) }, name)), coq_list(&items)));
                         }
-                        let want_body = (tr == "Default" && name == "default") || name == "build_hasher";
+                        let want_body = (tr == "Default" && name == "default") || name == "build_hasher" || (tr.is_empty() && name == "append");
                         if want_body {
                             impl_bodies.push(format!("({}, {}, {}, {})", coq_str(&ty), coq_str(&tr), coq_str(&name), coq_str(&norm_tokens(&f.block.to_token_stream()))));
                         }
